@@ -23,7 +23,11 @@ def main():
         r = work + "/r"
         head = sh("git rev-parse --short HEAD", r)[1].strip()
         meta = json.load(open(os.path.join(src, "meta.json")))
-        demo = os.path.join(src, "demo.py")
+        demo_src = os.path.join(src, "demo.py")
+        # run the demo from inside the scratch clone (some demos derive the clone root from __file__)
+        os.makedirs(os.path.join(r, "out", "m0"), exist_ok=True)
+        shutil.copy(demo_src, os.path.join(r, "out", "m0", "demo.py"))
+        demo = "out/m0/demo.py"
         rc, out = sh("git apply --check %s/patch.diff" % src, r)
         how = "git apply"
         if rc != 0:
@@ -35,7 +39,7 @@ def main():
             sh("find . -name '*.orig' -delete; find . -name '*.rej' -delete", r)
         else:
             sh("git apply %s/patch.diff" % src, r)
-        rc, diff = sh("git diff", r)
+        rc, diff = sh("git diff -- typhon", r)
         sh("git checkout -- .", r)
         # (a) demo on clean
         rc_clean, out_clean = sh("/venv/bin/python %s" % demo, r, timeout=600)
@@ -59,13 +63,13 @@ def main():
         if ok:
             os.makedirs(dst, exist_ok=True)
             open(os.path.join(dst, "patch.diff"), "w").write(diff)
-            shutil.copy(demo, os.path.join(dst, "demo.py"))
+            shutil.copy(demo_src, os.path.join(dst, "demo.py"))
             detected = [p for p, v in fired.items() if v["exit"] == 1]
             m2 = {"id": sid, "property": prop, "summary": meta.get("summary"), "file": meta.get("file"), "function": meta.get("function"),
                   "needs": meta.get("needs"), "why_tests_pass": meta.get("why_tests_pass"),
                   "origin": res["source"],
                   "confirmed": {"against_repo_head": head, "patch_applied_with": how,
-                                "demo": "cd <scratch clone of /repo> && /venv/bin/python demo.py: exit %d without the patch, exit %d with it" % (rc_clean, rc_pat),
+                                "demo": "cd <scratch clone of /repo> && mkdir -p out/m0 && cp demo.py out/m0/ && /venv/bin/python out/m0/demo.py: exit %d without the patch, exit %d with it" % (rc_clean, rc_pat),
                                 "test_suite_with_patch": tests,
                                 "commands": ["git clone /repo <scratch>", "git -C <scratch> apply patch.diff", "/venv/bin/python demo.py",
                                              "/venv/bin/python -m pytest -q -p no:cacheprovider --timeout=900 --continue-on-collection-errors",
